@@ -122,7 +122,7 @@ mod verif_kani {
         core::mem::forget(v);
     }
 
-    //@harness props=C08,C12 kind=bounded fns=LuaValue::length bound="ENUMERATED inputs: the strings \"\\xC3\\xA9\" (one 2-byte UTF-8 character), \"\\xFF\" (invalid UTF-8), \"a\\0b\" (embedded NUL)" budget=300
+    //@harness props=C08,C12 kind=bounded fns=LuaValue::length bound="ENUMERATED inputs: the strings \"\\xC3\\xA9\" (one 2-byte UTF-8 character), \"\\xFF\" (invalid UTF-8), \"a\\0b\" (embedded NUL)" budget=400
     //@ desc="`#s` counts BYTES: a definite length of a string with multi-byte, invalid or NUL bytes is its byte length"
     #[kani::proof]
     #[kani::unwind(8)]
